@@ -566,7 +566,10 @@ def real_backlog_reconnect_case(acc, seed, tag, dispatcher_name):
             t.join(20)
         if any(t.is_alive() for t in ths):
             from vf import probes
-            stt = probes.thread_states(ths)
+            stt = probes.stuck(ths)
+            if stt is None:
+                acc.inconc("%s: senders still making progress 20 s after the connection was dropped (slow machine?)" % tag)
+                return
             acc.violation("real-backlog:sender-stuck:%s" % dispatcher_name, "a sender is still inside its send 20 s after the connection was dropped: %s" % {n: [list(f[:3]) for f in s_[:5]] for n, s_ in stt.items()}, w)
             return
         if not c.wait(lambda: c.probe_top.event_names().count(D) >= 1, 10):
@@ -685,7 +688,13 @@ def real_big_stanza_case(acc, seed, tag, dispatcher_name, prop="C11"):
         for t in ths:
             t.join(60)
         if any(t.is_alive() for t in ths):
-            acc.violation("real-big:sender-stuck:%s" % dispatcher_name, "a sender did not return within 60 s after the peer had started reading again", w)
+            from vf import probes
+            stt = probes.stuck(ths)
+            if stt is None:
+                acc.inconc("%s: senders still making progress 60 s after the peer had started reading again (slow machine?)" % tag)
+                return
+            acc.violation("real-big:sender-stuck:%s" % dispatcher_name, "a sender did not return within 60 s after the peer had started reading again, blocked in %s"
+                          % {n: [list(f[:3]) for f in s_[:4]] for n, s_ in stt.items()}, w)
             return
         if errors:
             acc.violation("real-big:send-raises:%s:%s" % (dispatcher_name, errors[0][1]), "a sender got %s: %s" % (errors[0][1], errors[0][2]), w)
@@ -812,7 +821,11 @@ def core_stack_run(acc, seed, tag):
         sys.setswitchinterval(old_sw)
         T.wire.after_feed = None
     if any(t.is_alive() for t in ths):
-        stt = probes.thread_states(ths)
+        stt = probes.stuck(ths)
+        if stt is None:
+            acc.inconc("%s: core-stack senders still making progress after 60 s (slow machine?)" % tag)
+            T.close()
+            return
         acc.violation("core-stack:sender-stuck", "a sender into the core-only stack did not return: %s" % {n: [list(f[:3]) for f in s_[:5]] for n, s_ in stt.items()}, w)
         T.close()
         return
